@@ -256,9 +256,15 @@ func (p *Parser) deconstructMap(rv reflect.Value, numBuffers *int, r *restorer) 
 					b[i] = buf[i]
 				}
 
+				r.add(func() { rv.SetMapIndex(mk, original) })
+				if rv.Type().Elem().Kind() != reflect.Interface {
+					// The map holds binaries directly (e.g. map[string]Binary): a pointer is not assignable.
+					rv.SetMapIndex(mk, n)
+					return nil
+				}
+
 				x := reflect.New(mv.Type())
 				x.Elem().Set(n)
-				r.add(func() { rv.SetMapIndex(mk, original) })
 				rv.SetMapIndex(mk, x)
 				return nil
 			}
@@ -556,6 +562,12 @@ func (r *reconstructor) reconstructMap(rv reflect.Value) error {
 
 					for i := 0; i < len(b); i++ {
 						b[i] = buf[i]
+					}
+
+					if rv.Type().Elem().Kind() != reflect.Interface {
+						// The map holds binaries directly (e.g. map[string]Binary): a pointer is not assignable.
+						rv.SetMapIndex(mk, n)
+						return nil
 					}
 
 					x := reflect.New(mv.Type())
